@@ -42,6 +42,8 @@ type scheduler struct {
 	mainWake    chan struct{}
 	err         interface{}
 	switches    int
+	siteCount   map[string]int
+	skipped     int
 	preemptions int
 	points      int
 	wg          sync.WaitGroup
@@ -52,7 +54,10 @@ type threadAbort struct{}
 // maxPreemptions bounds the number of voluntary context switches per explored schedule (preemption
 // bounding, Musuvathi & Qadeer 2007): every schedule with at most this many preemptions is explored;
 // switches forced by a blocked or finished thread are free. The bound is part of the stated claim.
-const maxPreemptions = 3
+const maxPreemptions = 2
+
+// maxPerSite: see syncPoint.
+const maxPerSite = 2
 
 func (m *Machine) saveThread(t *thread) {
 	t.curFrame, t.recoverTarget, t.heldLocks, t.syncDepth = m.curFrame, m.recoverTarget, m.heldLocks, m.syncDepth
@@ -105,6 +110,17 @@ func (m *Machine) syncPoint(fr *frame, what string) {
 	if s.preemptions >= maxPreemptions {
 		return
 	}
+	// a synchronisation call site inside a loop is reached again and again with the same pattern: each
+	// (thread, call site) offers a preemption only the first maxPerSite times it is reached
+	site := fmt.Sprintf("%d@%s", s.cur, fr.pos())
+	if s.siteCount == nil {
+		s.siteCount = map[string]int{}
+	}
+	if s.siteCount[site] >= maxPerSite {
+		s.skipped++
+		return
+	}
+	s.siteCount[site]++
 	c := m.newNondet("sched:"+what, 0)
 	if m.branch(c, fr) {
 		s.preemptions++
@@ -329,7 +345,7 @@ func init() {
 		s.wg.Wait()
 		m.sched = nil
 		m.loadThread(mainState)
-		m.notes = append(m.notes, Note{Key: "schedule", V: str{s: fmt.Sprintf("%d synchronisation points, %d context switches", s.points, s.switches)}})
+		m.notes = append(m.notes, Note{Key: "schedule", V: str{s: fmt.Sprintf("%d synchronisation points (%d beyond the per-site bound), %d context switches", s.points, s.skipped, s.switches)}})
 		if s.err != nil {
 			panic(s.err)
 		}
